@@ -6,3 +6,263 @@ From Coq Require Import List NArith Bool.
 From Whad Require Import C04.Model.
 Import ListNotations.
 Open Scope N_scope.
+
+(** ---- Bridge.__init__ (one direction: input device -> output device) ------------------------
+
+    Threads: the application thread running Bridge(in_connector, out_connector); the
+    input device's reader thread (DevOutThread.run -> put_message); the I/O thread of the
+    OLD input connector (still running: nothing stops it); the I/O thread of the
+    BridgeIfaceWrapper created on the input device.  The wrapper relays every message it
+    processes to the output device's send queue ([b_peer]); unlock(dispatch_pending_input)
+    relays what the old connector was holding.  What the old connector's own I/O thread
+    dispatches to its packet handler once it is unlocked is NOT relayed ([b_lost]). *)
+
+Inductive bppc := Q1 | Q5 | Q6 | Q7 | Q8l | Q8a | Q8b (to_wrapper : bool).
+
+Inductive brpc := BR_Read | BR_P (p : bppc) (m : msg) | BR_Dead.
+
+Inductive xpc :=
+| X_Get | X_C2 (m : msg) | X_C5 (m : msg)
+| X_R1 (m : msg)      (* on_any_msg -> on_outbound -> output.send_message: load opened *)
+| X_R2 (m : msg)      (* peer in_q.put *)
+| X_L1 (m : msg) | X_L2 (m : msg).   (* process_message: is_locked() of the wrapper (never locked) *)
+
+Inductive bapc :=
+| BA_F1 | BA_F2                      (* set_queue_filter(None) on both devices *)
+| BA_W1b | BA_W1c | BA_W1            (* input wrapper: its own flag stores; device.__connector := wrapper *)
+| BA_W2b | BA_W2c | BA_W2            (* output wrapper (no traffic on that side in this model) *)
+| BA_L1 | BA_L2                      (* self.__in.is_locked() *)
+| BU_1 | BU_2 | BU_3                 (* unlock: acquire, empty?, get *)
+| BU_R1 (m : msg) | BU_R2 (m : msg)  (* dispatch_pending_input: load opened; peer in_q.put *)
+| BU_6 | BU_5                        (* flag cleared under the lock; release *)
+| BA_M1 | BA_M2                      (* self.__out.is_locked() *)
+| BA_Done.
+
+Record bstate := mkB {
+  b_wire : list chunk; b_spont : list chunk; b_rpc : brpc; b_rbuf : list frame;
+  b_conn : bool;               (* input device's __connector: false = old connector, true = wrapper *)
+  b_wready : bool;             (* the wrapper's event queue exists *)
+  b_filt : option N; b_outq : list msg;
+  b_ev_o : list msg; b_cpc : cpc; b_locked : bool; b_lk : bool; b_lq : list msg;
+  b_ev_w : list msg; b_xpc : xpc;
+  b_peer : list msg;
+  b_apc : bapc;
+  b_deliv_o : list msg; b_lost : list msg; b_deliv_w : list msg
+}.
+
+Definition bset_r (pc : brpc) (buf : list frame) (s : bstate) : bstate :=
+  {| b_wire := b_wire s; b_spont := b_spont s; b_rpc := pc; b_rbuf := buf; b_conn := b_conn s;
+     b_wready := b_wready s; b_filt := b_filt s; b_outq := b_outq s; b_ev_o := b_ev_o s; b_cpc := b_cpc s;
+     b_locked := b_locked s; b_lk := b_lk s; b_lq := b_lq s; b_ev_w := b_ev_w s; b_xpc := b_xpc s;
+     b_peer := b_peer s; b_apc := b_apc s; b_deliv_o := b_deliv_o s; b_lost := b_lost s;
+     b_deliv_w := b_deliv_w s |}.
+Definition bset_wire (w : list chunk) (sp : list chunk) (s : bstate) : bstate :=
+  {| b_wire := w; b_spont := sp; b_rpc := b_rpc s; b_rbuf := b_rbuf s; b_conn := b_conn s;
+     b_wready := b_wready s; b_filt := b_filt s; b_outq := b_outq s; b_ev_o := b_ev_o s; b_cpc := b_cpc s;
+     b_locked := b_locked s; b_lk := b_lk s; b_lq := b_lq s; b_ev_w := b_ev_w s; b_xpc := b_xpc s;
+     b_peer := b_peer s; b_apc := b_apc s; b_deliv_o := b_deliv_o s; b_lost := b_lost s;
+     b_deliv_w := b_deliv_w s |}.
+Definition bset_dev (c : bool) (rdy : bool) (f : option N) (oq : list msg) (s : bstate) : bstate :=
+  {| b_wire := b_wire s; b_spont := b_spont s; b_rpc := b_rpc s; b_rbuf := b_rbuf s; b_conn := c;
+     b_wready := rdy; b_filt := f; b_outq := oq; b_ev_o := b_ev_o s; b_cpc := b_cpc s;
+     b_locked := b_locked s; b_lk := b_lk s; b_lq := b_lq s; b_ev_w := b_ev_w s; b_xpc := b_xpc s;
+     b_peer := b_peer s; b_apc := b_apc s; b_deliv_o := b_deliv_o s; b_lost := b_lost s;
+     b_deliv_w := b_deliv_w s |}.
+Definition bset_o (ev : list msg) (pc : cpc) (l : bool) (k : bool) (q : list msg)
+                  (d : list msg) (lost : list msg) (s : bstate) : bstate :=
+  {| b_wire := b_wire s; b_spont := b_spont s; b_rpc := b_rpc s; b_rbuf := b_rbuf s; b_conn := b_conn s;
+     b_wready := b_wready s; b_filt := b_filt s; b_outq := b_outq s; b_ev_o := ev; b_cpc := pc;
+     b_locked := l; b_lk := k; b_lq := q; b_ev_w := b_ev_w s; b_xpc := b_xpc s;
+     b_peer := b_peer s; b_apc := b_apc s; b_deliv_o := d; b_lost := lost;
+     b_deliv_w := b_deliv_w s |}.
+Definition bset_w (ev : list msg) (pc : xpc) (peer : list msg) (d : list msg) (s : bstate) : bstate :=
+  {| b_wire := b_wire s; b_spont := b_spont s; b_rpc := b_rpc s; b_rbuf := b_rbuf s; b_conn := b_conn s;
+     b_wready := b_wready s; b_filt := b_filt s; b_outq := b_outq s; b_ev_o := b_ev_o s; b_cpc := b_cpc s;
+     b_locked := b_locked s; b_lk := b_lk s; b_lq := b_lq s; b_ev_w := ev; b_xpc := pc;
+     b_peer := peer; b_apc := b_apc s; b_deliv_o := b_deliv_o s; b_lost := b_lost s;
+     b_deliv_w := d |}.
+Definition bset_a (pc : bapc) (s : bstate) : bstate :=
+  {| b_wire := b_wire s; b_spont := b_spont s; b_rpc := b_rpc s; b_rbuf := b_rbuf s; b_conn := b_conn s;
+     b_wready := b_wready s; b_filt := b_filt s; b_outq := b_outq s; b_ev_o := b_ev_o s; b_cpc := b_cpc s;
+     b_locked := b_locked s; b_lk := b_lk s; b_lq := b_lq s; b_ev_w := b_ev_w s; b_xpc := b_xpc s;
+     b_peer := b_peer s; b_apc := pc; b_deliv_o := b_deliv_o s; b_lost := b_lost s;
+     b_deliv_w := b_deliv_w s |}.
+
+(** [legacy_ctor]: Connector.__init__ as found gave the device its new connector before the
+    connector's event queue existed. *)
+Record bconfig := mkBC { legacy_ctor : bool }.
+
+Fixpoint br_next (buf : list frame) : brpc * list frame :=
+  match buf with
+  | [] => (BR_Read, [])
+  | None :: r => br_next r
+  | Some m :: r => (BR_P Q1 m, r)
+  end.
+
+Definition bstep_R (s : bstate) : bstate :=
+  match b_rpc s with
+  | BR_Read =>
+      match b_wire s with
+      | [] => s
+      | c :: w => bset_r (fst (br_next c)) (snd (br_next c)) (bset_wire w (b_spont s) s)
+      end
+  | BR_P p m =>
+      let fin s1 := bset_r (fst (br_next (b_rbuf s))) (snd (br_next (b_rbuf s))) s1 in
+      match p with
+      | Q1 => bset_r (BR_P Q5 m) (b_rbuf s) s
+      | Q5 => bset_r (BR_P (match b_filt s with None => Q8l | Some _ => Q6 end) m) (b_rbuf s) s
+      | Q6 => match b_filt s with
+              | None => bset_r BR_Dead (b_rbuf s) s
+              | Some f => bset_r (BR_P (if matches f m then Q7 else Q8l) m) (b_rbuf s) s
+              end
+      | Q7 => fin (bset_dev (b_conn s) (b_wready s) (b_filt s) (b_outq s ++ [m]) s)
+      | Q8l => bset_r (BR_P Q8a m) (b_rbuf s) s
+      | Q8a => bset_r (BR_P (Q8b (b_conn s)) m) (b_rbuf s) s
+      | Q8b true =>
+          if b_wready s
+          then fin (bset_w (b_ev_w s ++ [m]) (b_xpc s) (b_peer s) (b_deliv_w s) s)
+          else bset_r BR_Dead (b_rbuf s) s     (* AttributeError: no event queue yet *)
+      | Q8b false =>
+          fin (bset_o (b_ev_o s ++ [m]) (b_cpc s) (b_locked s) (b_lk s) (b_lq s) (b_deliv_o s) (b_lost s) s)
+      end
+  | BR_Dead => s
+  end.
+
+(** The old connector's I/O thread: C04's step_C with synchronous mode off, repaired
+    add_locked_pdu. *)
+Definition bstep_C (s : bstate) : bstate :=
+  let upd ev pc l k q d lost := bset_o ev pc l k q d lost s in
+  let same pc := upd (b_ev_o s) pc (b_locked s) (b_lk s) (b_lq s) (b_deliv_o s) (b_lost s) in
+  match b_cpc s with
+  | CC_Get => match b_ev_o s with
+              | [] => s
+              | m :: r => upd r (CC_C2 m) (b_locked s) (b_lk s) (b_lq s) (b_deliv_o s) (b_lost s)
+              end
+  | CC_C2 m => same (CC_C5 m)
+  | CC_C5 m => upd (b_ev_o s) (if m_pkt m then CC_L1 m else CC_Get) (b_locked s) (b_lk s) (b_lq s)
+                   (b_deliv_o s ++ [m]) (b_lost s)
+  | CC_L1 m => same (CC_L2 m)
+  | CC_L2 m => if b_locked s then same (CC_A m)
+               else upd (b_ev_o s) CC_Get (b_locked s) (b_lk s) (b_lq s) (b_deliv_o s) (b_lost s ++ [m])
+  | CC_A m => if b_lk s then s
+              else upd (b_ev_o s) (CC_T m) (b_locked s) true (b_lq s) (b_deliv_o s) (b_lost s)
+  | CC_T m => if b_locked s then same (CC_Put m) else same (CC_RelD m)
+  | CC_Put m => upd (b_ev_o s) CC_Rel (b_locked s) (b_lk s) (b_lq s ++ [m]) (b_deliv_o s) (b_lost s)
+  | CC_Rel => upd (b_ev_o s) CC_Get (b_locked s) false (b_lq s) (b_deliv_o s) (b_lost s)
+  | CC_RelD m => upd (b_ev_o s) CC_Get (b_locked s) false (b_lq s) (b_deliv_o s) (b_lost s ++ [m])
+  | CC_S1 m | CC_S2 m | CC_SPut m => s
+  end.
+
+(** The wrapper's I/O thread. *)
+Definition bstep_X (s : bstate) : bstate :=
+  let upd ev pc peer d := bset_w ev pc peer d s in
+  let same pc := upd (b_ev_w s) pc (b_peer s) (b_deliv_w s) in
+  match b_xpc s with
+  | X_Get => match b_ev_w s with
+             | [] => s
+             | m :: r => upd r (X_C2 m) (b_peer s) (b_deliv_w s)
+             end
+  | X_C2 m => same (X_C5 m)
+  | X_C5 m => upd (b_ev_w s) (X_R1 m) (b_peer s) (b_deliv_w s ++ [m])
+  | X_R1 m => same (X_R2 m)
+  | X_R2 m => upd (b_ev_w s) (if m_pkt m then X_L1 m else X_Get) (b_peer s ++ [m]) (b_deliv_w s)
+  | X_L1 m => same (X_L2 m)
+  | X_L2 m => same X_Get
+  end.
+
+(** Bridge.__init__ *)
+Definition bstep_A (cfg : bconfig) (s : bstate) : bstate :=
+  match b_apc s with
+  | BA_F1 => bset_a BA_F2 (bset_dev (b_conn s) (b_wready s) None (b_outq s) s)
+  | BA_F2 => bset_a (if legacy_ctor cfg then BA_W1 else BA_W1b) s
+  | BA_W1b => bset_a BA_W1c s
+  | BA_W1c => if legacy_ctor cfg
+              then bset_a BA_W2 (bset_dev (b_conn s) true (b_filt s) (b_outq s) s)
+              else bset_a BA_W1 (bset_dev (b_conn s) true (b_filt s) (b_outq s) s)
+  | BA_W1 => if legacy_ctor cfg
+             then bset_a BA_W1b (bset_dev true (b_wready s) (b_filt s) (b_outq s) s)
+             else bset_a BA_W2b (bset_dev true (b_wready s) (b_filt s) (b_outq s) s)
+  | BA_W2b => bset_a BA_W2c s
+  | BA_W2c => bset_a (if legacy_ctor cfg then BA_L1 else BA_W2) s
+  | BA_W2 => bset_a (if legacy_ctor cfg then BA_W2b else BA_L1) s
+  | BA_L1 => bset_a BA_L2 s
+  | BA_L2 => bset_a (if b_locked s then BU_1 else BA_M1) s
+  | BU_1 => if b_lk s then s
+            else bset_a BU_2 (bset_o (b_ev_o s) (b_cpc s) (b_locked s) true (b_lq s) (b_deliv_o s) (b_lost s) s)
+  | BU_2 => match b_lq s with [] => bset_a BU_6 s | _ :: _ => bset_a BU_3 s end
+  | BU_3 => match b_lq s with
+            | m :: q => bset_a (BU_R1 m) (bset_o (b_ev_o s) (b_cpc s) (b_locked s) (b_lk s) q (b_deliv_o s) (b_lost s) s)
+            | [] => s
+            end
+  | BU_R1 m => bset_a (BU_R2 m) s
+  | BU_R2 m => bset_a BU_2 (bset_w (b_ev_w s) (b_xpc s) (b_peer s ++ [m]) (b_deliv_w s) s)
+  | BU_6 => bset_a BU_5 (bset_o (b_ev_o s) (b_cpc s) false (b_lk s) (b_lq s) (b_deliv_o s) (b_lost s) s)
+  | BU_5 => bset_a BA_M1 (bset_o (b_ev_o s) (b_cpc s) (b_locked s) false (b_lq s) (b_deliv_o s) (b_lost s) s)
+  | BA_M1 => bset_a BA_M2 s
+  | BA_M2 => bset_a BA_Done s
+  | BA_Done => s
+  end.
+
+Definition bemit (s : bstate) : bstate :=
+  match b_spont s with
+  | [] => s
+  | c :: r => bset_wire (b_wire s ++ [c]) r s
+  end.
+
+Inductive baction := BA | BR | BC | BX | BEmit | BNop.
+
+Definition bact (cfg : bconfig) (a : baction) (s : bstate) : bstate :=
+  match a with
+  | BA => bstep_A cfg s | BR => bstep_R s | BC => bstep_C s | BX => bstep_X s
+  | BEmit => bemit s | BNop => s
+  end.
+
+Definition brun (cfg : bconfig) (l : list baction) (s : bstate) : bstate :=
+  fold_left (fun s a => bact cfg a s) l s.
+
+(** The bridge is created on a locked input connector that holds [held]; [ev0] are events
+    still in the old connector's queue; [sp] is what the input device emits from then on. *)
+Definition binit (held ev0 : list msg) (sp : list chunk) : bstate :=
+  {| b_wire := []; b_spont := sp; b_rpc := BR_Read; b_rbuf := []; b_conn := false; b_wready := false;
+     b_filt := None; b_outq := [];
+     b_ev_o := ev0; b_cpc := CC_Get; b_locked := true; b_lk := false; b_lq := held;
+     b_ev_w := []; b_xpc := X_Get; b_peer := []; b_apc := BA_F1;
+     b_deliv_o := []; b_lost := []; b_deliv_w := [] |}.
+
+Definition baction_of (n : N) : baction :=
+  match n with 0 => BA | 2 => BR | 3 => BC | 6 => BX | 5 => BEmit | _ => BNop end.
+
+Record bobs := mkBO {
+  bo_peer : list msg; bo_lost : list msg; bo_lq : list msg; bo_deliv_o : list msg;
+  bo_deliv_w : list msg; bo_ev_o : list msg; bo_ev_w : list msg; bo_locked : bool;
+  bo_done : bool; bo_dead : bool
+}.
+
+Definition bobs_of (s : bstate) : bobs :=
+  {| bo_peer := b_peer s; bo_lost := b_lost s; bo_lq := b_lq s; bo_deliv_o := b_deliv_o s;
+     bo_deliv_w := b_deliv_w s; bo_ev_o := b_ev_o s; bo_ev_w := b_ev_w s; bo_locked := b_locked s;
+     bo_done := match b_apc s with BA_Done => true | _ => false end;
+     bo_dead := match b_rpc s with BR_Dead => true | _ => false end |}.
+
+Definition bobs_eqb (a b : bobs) : bool :=
+  list_eqb msg_eqb (bo_peer a) (bo_peer b) && list_eqb msg_eqb (bo_lost a) (bo_lost b)
+  && list_eqb msg_eqb (bo_lq a) (bo_lq b) && list_eqb msg_eqb (bo_deliv_o a) (bo_deliv_o b)
+  && list_eqb msg_eqb (bo_deliv_w a) (bo_deliv_w b) && list_eqb msg_eqb (bo_ev_o a) (bo_ev_o b)
+  && list_eqb msg_eqb (bo_ev_w a) (bo_ev_w b) && Bool.eqb (bo_locked a) (bo_locked b)
+  && Bool.eqb (bo_done a) (bo_done b) && Bool.eqb (bo_dead a) (bo_dead b).
+
+Definition bcase := (bool * list msg * list msg * list chunk * list N * bobs)%type.
+
+Definition brun_case (c : bcase) : bobs :=
+  let '(lc, held, ev0, sp, sched, _) := c in
+  bobs_of (brun (mkBC lc) (map baction_of sched) (binit held ev0 sp)).
+
+Definition bcheck_case (c : bcase) : bool :=
+  let '(_, _, _, _, _, o) := c in bobs_eqb (brun_case c) o.
+
+(** Nothing is running any more. *)
+Definition bquiet (s : bstate) : bool :=
+  match b_apc s, b_rpc s, b_cpc s, b_xpc s, b_wire s, b_spont s, b_ev_o s, b_ev_w s with
+  | BA_Done, BR_Read, CC_Get, X_Get, [], [], [], [] => true
+  | _, _, _, _, _, _, _, _ => false
+  end.
